@@ -15,7 +15,7 @@ func InstantiatePuppetType(ctx px.Context, loader ContentProvidingLoader, tn px.
 	dt := types.ParseFile(sources[0], content)
 	if nt, ok := dt.(px.Type); ok {
 		if !strings.EqualFold(tn.Name(), nt.Name()) {
-			panic(px.Error(px.WrongDefinition, issue.H{`source`: sources[0], `type`: px.NsType, `expected`: tn.Name(), `actual`: nt.Name()}))
+			panic(px.Error2(types.DefinitionLocation(sources[0], content), px.WrongDefinition, issue.H{`source`: sources[0], `type`: px.NsType, `expected`: tn.Name(), `actual`: nt.Name()}))
 		}
 		px.AddTypes(ctx, nt)
 	} else {
@@ -24,7 +24,7 @@ func InstantiatePuppetType(ctx px.Context, loader ContentProvidingLoader, tn px.
 			px.AddTypes(ctx, types.NamedType(tn.Authority(), tn.Name(), dt))
 		default:
 			// e.g. an empty file or a literal: nothing that a type can be created from
-			panic(px.Error(px.NoDefinition, issue.H{`source`: sources[0], `type`: px.NsType, `name`: tn.Name()}))
+			panic(px.Error2(types.DefinitionLocation(sources[0], content), px.NoDefinition, issue.H{`source`: sources[0], `type`: px.NsType, `name`: tn.Name()}))
 		}
 	}
 }
